@@ -1,6 +1,8 @@
 package gorou
 
 import (
+	"os"
+	"path/filepath"
 	"strings"
 	"testing"
 )
@@ -72,5 +74,59 @@ func TestLive(t *testing.T) {
 	}
 	if CurID() == 0 || !strings.Contains(Text(), "TestLive") {
 		t.Fatal("CurID/Text")
+	}
+}
+
+const raceSample = `some earlier output
+==================
+WARNING: DATA RACE
+Read at 0x00c00011e078 by goroutine 7:
+  github.com/graphql-go/graphql.ExecutePlan.func2()
+      /repo/plan.go:692 +0x3e
+  main.main.gowrap1()
+      /tmp/x/main.go:16 +0x17
+
+Previous write at 0x00c00011e078 by goroutine 8:
+  encoding/json.Marshal()
+      /usr/lib/go/src/encoding/json/encode.go:11 +0x50
+  verif/internal/props/c16.(*run).marshal()
+      /verif/internal/props/c16/run.go:17 +0x17
+
+Goroutine 7 (running) created at:
+  github.com/graphql-go/graphql.ExecutePlan()
+      /repo/plan.go:646 +0x124
+==================
+tail
+==================
+WARNING: DATA RACE
+Read at 0x1 by goroutine 9:
+  main.w()
+`
+
+func TestRaceLog(t *testing.T) {
+	dir := t.TempDir()
+	l := OpenRaceLog(dir, 3)
+	if got := l.Poll(); got != nil {
+		t.Fatal("no file yet")
+	}
+	if err := os.WriteFile(filepath.Join(dir, "child_3.err"), []byte(raceSample), 0o644); err != nil {
+		t.Fatal(err)
+	}
+	reps := l.Poll()
+	if len(reps) != 1 {
+		t.Fatalf("want 1 complete report, got %d", len(reps))
+	}
+	if reps[0].HarnessOnly || reps[0].Sig != "ExecutePlan.func2|encoding/json.Marshal" {
+		t.Fatalf("sig: %q harnessOnly=%v", reps[0].Sig, reps[0].HarnessOnly)
+	}
+	if reps := l.Poll(); len(reps) != 0 {
+		t.Fatalf("incomplete report must not be returned: %d", len(reps))
+	}
+	f, _ := os.OpenFile(filepath.Join(dir, "child_3.err"), os.O_APPEND|os.O_WRONLY, 0o644)
+	f.WriteString("      /tmp/x.go:1 +0x1\n\nPrevious write at 0x1 by goroutine 10:\n  main.w()\n      /tmp/x.go:1 +0x1\n==================\n")
+	f.Close()
+	reps = l.Poll()
+	if len(reps) != 1 || !reps[0].HarnessOnly || reps[0].Sig != "main.w|main.w" {
+		t.Fatalf("second report: %+v", reps)
 	}
 }
